@@ -40,6 +40,11 @@ def gen_cases(tier, seed):
                       "N0": int(rng.choice([2, 5, 20, 100])), "Lmax_extra": int(rng.integers(0, 6)), "beta": float(rng.uniform(0.6, 2.2)),
                       "alpha": float(rng.uniform(0.5, 1.5)), "rates_given": bool(i % 3 != 0), "scale": float(rng.choice([1.0, 30.0])),
                       "budget": 2_000_000 if tier == "thorough" else 150_000})
+    # a maximum level below the initial level: refused by the configuration, or honoured (no level above the maximum is ever simulated)
+    for i in range(4 if tier == "quick" else 30):
+        cases.append({"kind": "run", "seed": int(rng.integers(2**31)), "profile": "geometric", "rmse_exp": float(rng.uniform(-1.2, -0.4)),
+                      "L0": int(rng.choice([2, 3, 4])), "N0": 20, "Lmax_extra": -int(rng.choice([1, 2])), "beta": 1.5, "alpha": 1.0, "rates_given": True,
+                      "scale": 1.0, "budget": 150_000})
     # histories of pricings in one process with the library's DEFAULT configuration arguments (no convergence rates given): a run must not
     # depend on the runs priced before it
     for i in range(6 if tier == "quick" else 60):
@@ -179,7 +184,16 @@ def _run(case, R):
     Lmax = L0 + case["Lmax_extra"]
     rates = ConvergenceRates(alpha=case["alpha"], beta=case["beta"], gamma=1.0) if case["rates_given"] else ConvergenceRates()
     cp = ScriptedCoupling(profile, cost, rate=0.02, budget=case["budget"])
-    conf = ConfigurationMultiLevel(convergence_rates=rates, initial_level=L0, maximum_level=Lmax, initial_mc_paths=N0, seed=7, nb_of_processes=1)
+    try:
+        conf = ConfigurationMultiLevel(convergence_rates=rates, initial_level=L0, maximum_level=Lmax, initial_mc_paths=N0, seed=7, nb_of_processes=1)
+    except ValueError:
+        if Lmax < L0:
+            R.hit("inconsistent_levels_refused")
+            R.skip("refused-by-configuration: maximum level below the initial level")
+            return
+        raise
+    if Lmax < L0:
+        R.hit("inconsistent_levels_accepted")
     cc = conf.convergence_criteria
     calls = []
     orig_c, orig_n = cc.criteria, cc.compute_mc_paths
